@@ -44,17 +44,22 @@ RULE = ("a case is one command line (job): input x output type x configuration x
         "configured module is on the executed pipeline; history transitions are non-trivial when the history is "
         "non-empty and the job writes a file; distinct by canonical job JSON / history")
 BOUNDS = {
-  "quick": "8 inputs (2 TTML, 2 SCC, 2 STL, SRT, VTT) x 3 outputs; 150 configurations (every documented key with its "
-           "valid+boundary menu one at a time, per-module products of 2-valued domains, a cross-module product) x "
-           "filters {[],[lcd]}; option family: 6 filter lists x 6 input-type selections x 5 output-type selections x "
-           "{none, --config, --config_file, both}; invalid menus for all 19 documented keys on every pipeline that "
-           "parses the module x {--config, --config_file}; histories: all sequences of <= 2 jobs from a menu of 9; "
-           "hash seeds 0..3 on 30 jobs",
-  "thorough": "as quick, histories of <= 3 jobs",
+  "quick": "configuration sweep: 6 inputs (TTML, SCC, 2 STL, SRT, VTT) x 3 outputs x 157 configurations (none, {}, every "
+           "documented key with its valid+boundary menu one at a time, per-module products of 2-valued domains, a "
+           "cross-module product) x filters {[],[lcd]}; option sweep: 5 inputs x 3 outputs x 3 filter lists x 6 input-type "
+           "selections x 5 output-type selections x {none, --config, --config_file, both}; filter sweep: 5 inputs x 3 "
+           "outputs x all 85 sequences of <= 3 names over {lcd, 2 probe filters, unknown} x {no, with configuration}; "
+           "invalid menus (wrong JSON type, out of range, unknown keyword, malformed, null) for all 19 documented keys "
+           "on every pipeline that parses the module x {--config, --config_file}; unsupported types/extensions/"
+           "sub-commands; malformed configuration documents; histories: ALL sequences of <= 2 jobs from a menu of 9 "
+           "(unmerged) + sequences of <= 3 jobs merged on the global-state fingerprint; hash seeds 0..3 on 30 jobs",
+  "thorough": "as quick; histories: ALL sequences of <= 3 jobs (unmerged) + sequences of <= 4 jobs merged on the fingerprint",
 }
 ASSUMPTIONS = [
   "the reference composition uses the public reader/filter/writer/configuration functions of the explored tree; only the "
   "glue (type inference, configuration loading and precedence, document_lang, filter sequencing, file writing) is re-stated",
+  "two probe document filters (c19a, c19b) are registered through the public DocumentFilter subclass mechanism so that "
+  "filter order and repetition are observable (lcd is idempotent)",
   "an unknown filter name is outside the property statement: either an error without output or skipping it (what tt.py "
   "does, with an ERROR record) is accepted, the output must then equal the composition without that filter",
   "a configuration for a module that is not on the executed pipeline is not parsed and therefore never rejected",
@@ -254,6 +259,59 @@ def run_job_inprocess(job):
 
 class Rejected(Exception):
   """the reference decides that the command line must end with an error"""
+
+
+# ---------------------------------------------------------------------------------------------------
+# probe filters: two harness-defined document filters registered through the public extension mechanism
+# (subclassing DocumentFilter), non-idempotent and order-sensitive, so that "the named filters in order" is observable
+# (lcd, the only filter of the library, is idempotent)
+
+PROBES = ("c19a", "c19b")
+
+
+def _register_probe_filters():
+  import dataclasses
+  import typing
+  from ttconv.filters.document_filter import DocumentFilter
+  from ttconv.config import ModuleConfiguration
+  import ttconv.model as model
+  import ttconv.style_properties as styles
+  if DocumentFilter.get_filter_by_name(PROBES[0]) is not None:
+    return
+
+  def make(fname):
+    @dataclasses.dataclass
+    class ProbeConfig(ModuleConfiguration):
+      """suffix appended to the first text node"""
+      suffix: typing.Optional[str] = fname[-1]
+
+      @classmethod
+      def name(cls):
+        return fname
+
+    class ProbeFilter(DocumentFilter):
+      """appends '+<suffix>' to the first text node and sets tts:textAlign=end on the body"""
+
+      @classmethod
+      def get_config_class(cls):
+        return ProbeConfig
+
+      def process(self, doc):
+        body = doc.get_body()
+        if body is None:
+          return
+        for e in body.dfs_iterator():
+          if isinstance(e, model.Text):
+            e.set_text(e.get_text() + "+" + str(self.config.suffix))
+            break
+        body.set_style(styles.StyleProperties.TextAlign, styles.TextAlignType.end)
+    ProbeFilter.__name__ = ProbeFilter.__qualname__ = f"ProbeFilter_{fname}"
+    return ProbeFilter
+  for fname in PROBES:
+    make(fname)
+
+
+_register_probe_filters()
 
 
 def _ref_type(explicit, file_name):
@@ -564,7 +622,22 @@ DECOY = {
   "lcd": {"safe_area": 10, "color": "red", "bg_color": "blue", "preserve_text_align": False},
 }
 
-FILTER_LISTS = [[], ["lcd"], ["lcd", "lcd"], ["nosuch"], ["lcd", "nosuch"], ["nosuch", "lcd"]]
+FILTER_LISTS = [[], ["lcd"], ["nosuch", "lcd"]]          # option family; the filter family takes all sequences
+FILTER_NAMES = ["lcd", "c19a", "c19b", "nosuch"]
+
+
+def _filter_sequences(maxlen):
+  out = [[]]
+  level = [[]]
+  for _ in range(maxlen):
+    level = [s_ + [n] for s_ in level for n in FILTER_NAMES]
+    out += level
+  return out
+
+
+FILTER_SEQS = _filter_sequences(3)
+FILTER_CFG = {"c19a": {"suffix": "A1"}, "lcd": {"safe_area": 5, "color": "yellow", "preserve_text_align": True},
+              "vtt_writer": {"text_align": True}, "general": {"document_lang": "es-419"}}
 IN_MODES = ["ext", "EXT", "Ext", "itype", "ITYPE+other-ext", "Itype+no-ext"]
 OUT_MODES = ["ext", "EXT", "Ext", "otype+neutral-ext", "OTYPE+other-ext"]
 DELIVERY = ["none", "inline", "file", "both"]
@@ -737,6 +810,35 @@ def job_reductions(job):
   for alt in ONE_PER_TYPE:
     if INPUTS[alt][0] == typ and alt != job["input"] and len(input_bytes(alt)) < len(input_bytes(job["input"])):
       yield variant(input=alt)
+  # a simpler pair: the smallest input of another type / an earlier output type, names re-spelled in the same style
+  for alt in sorted(ONE_PER_TYPE, key=lambda n_: len(input_bytes(n_))):
+    atyp = INPUTS[alt][0]
+    if atyp != typ and len(input_bytes(alt)) < len(input_bytes(job["input"])):
+      yield variant(input=alt, in_name=_respell(job["in_name"], typ, atyp),
+                    itype=None if job.get("itype") is None else _recase(job["itype"], atyp))
+  if otyp in OUT_TYPES:
+    for aot in PAIR_OUT_ORDER[:PAIR_OUT_ORDER.index(otyp)]:
+      yield variant(out_name=_respell(job["out_name"], otyp, aot),
+                    otype=None if job.get("otype") is None else _recase(job["otype"], aot))
+
+
+PAIR_OUT_ORDER = ["srt", "vtt", "ttml"]
+
+
+def _recase(old, new):
+  if old.lower() != old and old.upper() == old:
+    return new.upper()
+  if old.lower() == old:
+    return new.lower()
+  return _mixed(new)
+
+
+def _respell(name, old_typ, new_typ):
+  """replaces the extension of `name` by new_typ in the same letter case if it spells old_typ; otherwise unchanged"""
+  stem, ext = os.path.splitext(name)
+  if ext[1:].lower() == old_typ:
+    return stem + "." + _recase(ext[1:], new_typ)
+  return name
 
 
 _VERDICTS = {}      # per process: job key -> trimmed verdict, used by the minimiser only
@@ -819,6 +921,17 @@ def fam_equiv_config(inputs):
     return {"job": mk_job(inp, out, config=copy.deepcopy(cfg), filters=fl)}
   return Family("equiv-config", prod.n, decode, check_equiv, timeout=60,
                 note="inputs x outputs x configurations (one key at a time, per-module products, cross product) x {[],[lcd]}, --config")
+
+
+def fam_equiv_filters(inputs):
+  prod = Product([inputs, OUT_TYPES, list(range(len(FILTER_SEQS))), [None, FILTER_CFG]])
+
+  def decode(i):
+    inp, out, fi, cfg = prod.decode(i)
+    return {"job": mk_job(inp, out, config=copy.deepcopy(cfg), filters=list(FILTER_SEQS[fi])), "structural": len(FILTER_SEQS[fi]) > 1}
+  return Family("equiv-filters", prod.n, decode, check_equiv, timeout=60,
+                note="inputs x outputs x every sequence of <= 3 filter names over {lcd, c19a, c19b (probe filters), nosuch} x "
+                     "{no configuration, filter configuration}")
 
 
 def fam_equiv_options(inputs):
@@ -1144,7 +1257,12 @@ def _driver_main():
     for k, job in enumerate(payload["jobs"]):
       jr = os.path.join(root, f"j{k}")
       os.mkdir(jr)
-      argv, outd, _in_path = materialise(job, jr)
+      argv, outd, in_path = materialise(job, jr)
+      if payload.get("mode") == "ref":
+        st, val = ref_convert(job, in_path)
+        results.append({"status": st, "value": val})
+        shutil.rmtree(jr, ignore_errors=True)
+        continue
       try:
         tt.main(argv)
         status, detail = "ok", ""
@@ -1161,14 +1279,15 @@ def _driver_main():
     json.dump(jenc(out), f)
 
 
-def run_driver(jobs, hashseed=0, timeout=120):
-  """Runs `jobs` one after the other in ONE fresh interpreter of the explored tree."""
+def run_driver(jobs, hashseed=0, timeout=120, mode="tt"):
+  """Runs `jobs` one after the other in ONE fresh interpreter of the explored tree (mode "tt": ttconv.tt.main;
+  mode "ref": the reference composition, used by the gates)."""
   tmp = tempfile.mkdtemp(prefix="c19-sub-")
   try:
     pin = os.path.join(tmp, "payload.json")
     pout = os.path.join(tmp, "result.json")
     with open(pin, "w", encoding="utf-8") as f:
-      json.dump(jenc({"jobs": jobs, "tmp": tmp}), f)
+      json.dump(jenc({"jobs": jobs, "tmp": tmp, "mode": mode}), f)
     e = dict(os.environ)
     e["PYTHONPATH"] = env.SRC + os.pathsep + env.VERIF
     e["PYTHONHASHSEED"] = str(hashseed)
@@ -1332,55 +1451,71 @@ def _ref_of(job):
 
 
 def gates():
-  n = 0
+  """Hand-written expectations and the repository's own pinned command lines (test_tt.py), replayed through the
+  reference composition -- each in its own fresh interpreter, so that a history dependence of the explored tree shows
+  up as a C19.history violation and not as a failed gate."""
+  ex = []
 
-  def need(cond, what):
-    nonlocal n
-    n += 1
-    if not cond:
-      raise HarnessError(f"C19 reference composition gate failed: {what}")
+  def need(job, pred, what):
+    ex.append((job, pred, what))
 
-  st, b = _ref_of(mk_job("srt:own", "srt"))
-  need(st == "ok" and b.decode().startswith("1\n00:00:01,000 --> 00:00:02,500\n<b>") and "<i>" in b.decode()
-       and "\n\n2\n00:00:03,000 --> 00:00:04,000\nSecond <font color=" in b.decode(), f"srt->srt on the hand-written input: {b!r}")
-  st, b = _ref_of(mk_job("srt:own", "srt", config={"srt_writer": {"text_formatting": False}}))
-  need(st == "ok" and b.decode() == "1\n00:00:01,000 --> 00:00:02,500\nHello world\n\n2\n00:00:03,000 --> 00:00:04,000\nSecond green\nline two\n",
-       f"text_formatting=false removes the tags: {b!r}")
-  st, b = _ref_of(mk_job("vtt:own", "vtt", config={"vtt_writer": {"cue_id": False}}))
-  need(st == "ok" and b.decode().startswith("WEBVTT\n") and "\n\n00:00:01.000 --> 00:00:02.000\n" in b.decode()
-       and "\n1\n00:00:01.000" not in b.decode(), f"cue_id=false: {b!r}")
-  st, b = _ref_of(mk_job("vtt:own", "vtt"))
-  need(st == "ok" and b.decode().startswith("WEBVTT\n") and "\n\n1\n00:00:01.000 --> 00:00:02.000\n" in b.decode(),
-       f"cue identifiers by default: {b!r}")
-  st, b = _ref_of(mk_job("ttml:body_only", "ttml", config={"general": {"document_lang": "es-419"}}))
-  need(st == "ok" and b'xml:lang="es-419"' in b and b'xml:lang="en"' not in b, "document_lang overrides the language")
-  st, b = _ref_of(mk_job("ttml:body_only", "ttml"))
-  need(st == "ok" and b'xml:lang="en"' in b and b.startswith(b"<tt "), "plain ttml->ttml keeps xml:lang=en")
-  st, b = _ref_of(mk_job("ttml:rich", "ttml", filters=["lcd"], config={"lcd": {"safe_area": 5}}))
-  need(st == "ok" and b'tts:origin="5% 5%"' in b and b'tts:extent="90% 90%"' in b, "lcd safe_area=5 repositions regions to 5%/90%")
-  st, b = _ref_of(mk_job("ttml:rich", "ttml", config={"lcd": {"safe_area": 5}}))
-  need(st == "ok" and b'tts:origin="10% 10%"' in b, "an lcd section without --filter lcd has no effect")
-  st, b = _ref_of(mk_job("ttml:rich", "ttml", config={"imsc_writer": {"fps": "25/1"}}))
-  need(st == "ok" and b'begin="25f"' in b and b'ttp:frameRate="25"' in b, "fps alone selects frames")
-  st, b = _ref_of(mk_job("ttml:rich", "ttml", config={"imsc_writer": {"time_format": "frames"}}))
-  need(st == "error", "frames without fps is an error of the composition")
-  st, b = _ref_of(mk_job("ttml:rich", "ttml", config_file={"general": {"document_lang": "de"}}, config={"general": {"document_lang": "it"}}))
-  need(st == "ok" and b'xml:lang="de"' in b and b'xml:lang="it"' not in b, "the configuration file wins over --config")
-  st, b = _ref_of(mk_job("scc:pop-on", "ttml", in_name="in.TTML", itype="SCC", out_name="x.srt", otype="Ttml"))
-  need(st == "ok" and b.startswith(b"<tt ") and b"<p " in b, "--itype/--otype win over extensions, any case")
-  st, b = _ref_of(mk_job("scc:pop-on", "ttml", in_name="in.Scc", out_name="o.TTML"))
-  need(st == "ok" and b.startswith(b"<tt ") and b"<p " in b, "extensions are matched case-insensitively")
+  def txt(b):
+    return b.decode("utf-8") if isinstance(b, bytes) else ""
+
+  need(mk_job("srt:own", "srt"),
+       lambda st, b: st == "ok" and txt(b).startswith("1\n00:00:01,000 --> 00:00:02,500\n<b>") and "<i>" in txt(b)
+       and "\n\n2\n00:00:03,000 --> 00:00:04,000\nSecond <font color=" in txt(b), "srt->srt on the hand-written input")
+  need(mk_job("srt:own", "srt", config={"srt_writer": {"text_formatting": False}}),
+       lambda st, b: st == "ok" and txt(b) == "1\n00:00:01,000 --> 00:00:02,500\nHello world\n\n2\n00:00:03,000 --> 00:00:04,000\nSecond green\nline two\n",
+       "text_formatting=false removes the tags")
+  need(mk_job("vtt:own", "vtt", config={"vtt_writer": {"cue_id": False}}),
+       lambda st, b: st == "ok" and txt(b).startswith("WEBVTT\n") and "\n\n00:00:01.000 --> 00:00:02.000\n" in txt(b)
+       and "\n1\n00:00:01.000" not in txt(b), "cue_id=false")
+  need(mk_job("vtt:own", "vtt"),
+       lambda st, b: st == "ok" and txt(b).startswith("WEBVTT\n") and "\n\n1\n00:00:01.000 --> 00:00:02.000\n" in txt(b),
+       "cue identifiers by default")
+  need(mk_job("ttml:body_only", "ttml", config={"general": {"document_lang": "es-419"}}),
+       lambda st, b: st == "ok" and b'xml:lang="es-419"' in b and b'xml:lang="en"' not in b, "document_lang overrides the language")
+  need(mk_job("ttml:body_only", "ttml"),
+       lambda st, b: st == "ok" and b'xml:lang="en"' in b and b.startswith(b"<tt "), "plain ttml->ttml keeps xml:lang=en")
+  need(mk_job("ttml:rich", "ttml", filters=["lcd"], config={"lcd": {"safe_area": 5}}),
+       lambda st, b: st == "ok" and b'tts:origin="5% 5%"' in b and b'tts:extent="90% 90%"' in b, "lcd safe_area=5 repositions regions to 5%/90%")
+  need(mk_job("ttml:rich", "ttml", config={"lcd": {"safe_area": 5}}),
+       lambda st, b: st == "ok" and b'tts:origin="10% 10%"' in b, "an lcd section without --filter lcd has no effect")
+  need(mk_job("ttml:rich", "ttml", config={"imsc_writer": {"fps": "25/1"}}),
+       lambda st, b: st == "ok" and b'begin="25f"' in b and b'ttp:frameRate="25"' in b, "fps alone selects frames")
+  need(mk_job("ttml:rich", "ttml", config={"imsc_writer": {"time_format": "frames"}}),
+       lambda st, b: st == "error", "frames without fps is an error of the composition")
+  need(mk_job("ttml:rich", "ttml", config_file={"general": {"document_lang": "de"}}, config={"general": {"document_lang": "it"}}),
+       lambda st, b: st == "ok" and b'xml:lang="de"' in b and b'xml:lang="it"' not in b, "the configuration file wins over --config")
+  need(mk_job("scc:pop-on", "ttml", in_name="in.TTML", itype="SCC", out_name="x.srt", otype="Ttml"),
+       lambda st, b: st == "ok" and b.startswith(b"<tt ") and b"<p " in b, "--itype/--otype win over extensions, any case")
+  need(mk_job("scc:pop-on", "ttml", in_name="in.Scc", out_name="o.TTML"),
+       lambda st, b: st == "ok" and b.startswith(b"<tt ") and b"<p " in b, "extensions are matched case-insensitively")
+  need(mk_job("ttml:rich", "srt", filters=["c19a", "c19b"], config={"srt_writer": {"text_formatting": False}}),
+       lambda st, b: st == "ok" and txt(b).startswith("1\n00:00:01,000 --> 00:00:02,000\nBold+a+b and red italic\n"), "filters run in the order named (a, b)")
+  need(mk_job("ttml:rich", "srt", filters=["c19b", "c19a", "c19a"], config={"srt_writer": {"text_formatting": False}, "c19a": {"suffix": "X"}}),
+       lambda st, b: st == "ok" and txt(b).startswith("1\n00:00:01,000 --> 00:00:02,000\nBold+b+X+X and red italic\n"),
+       "a filter named twice runs twice, with its own configuration section")
+  need(mk_job("ttml:rich", "ttml", filters=["lcd", "c19a"]),
+       lambda st, b: st == "ok" and b'<body end="00:00:06.000" tts:textAlign="end">' in b, "lcd then probe: the probe's textAlign=end stays on the body")
+  need(mk_job("ttml:rich", "ttml", filters=["c19a", "lcd"]),
+       lambda st, b: st == "ok" and b'<body end="00:00:06.000" tts:textAlign="center">' in b, "probe then lcd: lcd centres the body")
   for bad in (dict(otype="scc"), dict(in_name="in.txt"), dict(sub="covert"), dict(out_name="out")):
-    st, b = _ref_of(mk_job("ttml:rich", "ttml", **bad))
-    need(st == "error" and b.startswith("Rejected"), f"reference rejects {bad}")
+    need(mk_job("ttml:rich", "ttml", **bad), lambda st, b: st == "error" and str(b).startswith("Rejected"), f"reference rejects {bad}")
   # the repository's own pinned expectations (test_tt.py): these command lines do not raise, or raise as pinned
   for argv_job, ok in [(mk_job("ttml:body_only", "ttml", itype="TTML"), True), (mk_job("ttml:body_only", "ttml", otype="TTML"), True),
                        (mk_job("ttml:body_only", "ttml", itype="scc"), True),
                        (mk_job("ttml:body_only", "ttml", in_name="body_only.not_ttml"), False),
                        (mk_job("ttml:body_only", "ttml", otype="not_ttml", out_name="o.not_ttml"), False)]:
-    st, b = _ref_of(argv_job)
-    need((st == "ok") == ok, f"test_tt.py expectation replayed through the reference: {argv_job} -> {st}")
-  return {"hand_examples": n}
+    need(argv_job, (lambda st, b, ok=ok: (st == "ok") == ok), f"test_tt.py expectation replayed through the reference ({'ok' if ok else 'raises'})")
+  from concurrent.futures import ThreadPoolExecutor
+  with ThreadPoolExecutor(max_workers=6) as pool:
+    res = list(pool.map(lambda e: run_driver([e[0]], mode="ref")["results"][0], ex))
+  for (job, pred, what), r in zip(ex, res):
+    if not pred(r["status"], r["value"]):
+      raise HarnessError(f"C19 reference composition gate failed: {what}: {job} -> {r['status']} {r['value']!r:.300}")
+  return {"hand_examples": len(ex)}
 
 
 # ---------------------------------------------------------------------------------------------------
@@ -1397,6 +1532,7 @@ def plan(tier, seed):
     fam_hashseed(),
     fam_equiv_config(CONFIG_INPUTS),
     fam_equiv_options(ONE_PER_TYPE),
+    fam_equiv_filters(ONE_PER_TYPE),
     fam_reject_config(),
     fam_reject_type(),
     fam_reject_shape(),
